@@ -92,6 +92,28 @@ def gen_segment(rng):
     the speed vanishes (used to place sub-intervals inside / outside)"""
     r = rng.random()
     sc = 10 ** rng.uniform(-1, 2.5)
+    r0 = rng.random()
+    if r0 < 0.07:
+        # nearly circular ellipse: |rx - ry|/rx from 1e-7 to 1e-4 (must NOT be measured as a circle:
+        # the statement's tolerance is 1e-6 relative)
+        rx = 10 ** rng.uniform(0, 2.3)
+        ry = rx * (1 + rng.choice([-1, 1]) * 10 ** rng.uniform(-7, -4))
+        st = rnd_c(rng, sc)
+        e = st + rnd_c(rng, 1) * rx * rng.choice([0.5, 1.2, 1.9])
+        return 'arc', [st, complex(rx, ry), float(rng.choice([0, 30, 90, rng.uniform(-180, 180)])),
+                       rng.random() < 0.5, rng.random() < 0.5, e if e != st else st + rx], 'near-circular', []
+    if r0 < 0.14:
+        # tiny user units: coordinates / radii 1e-9 .. 1e-6, arbitrary eccentricity (<= 100)
+        S = 10 ** rng.uniform(-9, -6)
+        if rng.random() < 0.8:
+            rx = S * rng.uniform(1, 10)
+            ratio = rng.choice([1, rng.uniform(1, 3), rng.uniform(3, 30), rng.uniform(30, 100)])
+            ry = rx / ratio if rng.random() < 0.5 else rx * ratio
+            st = rnd_c(rng, S * 10)
+            e = st + rnd_c(rng, 1) * min(rx, ry) * rng.choice([0.3, 1.0, 1.7])
+            return 'arc', [st, complex(rx, ry), float(rng.choice([0, 45, 90, rng.uniform(-180, 180)])),
+                           rng.random() < 0.5, rng.random() < 0.5, e if e != st else st + rx], 'tiny-units', []
+        return 'cubic', [rnd_c(rng, S * 10) for _ in range(4)], 'tiny-units', []
     if r < 0.08:
         return 'line', [rnd_c(rng, sc), rnd_c(rng, sc)], 'generic', []
     if r < 0.40:
@@ -467,6 +489,10 @@ def fail_key(kind, sub, what, cfg=None, params=None):
     if params is not None and near_linear(kind, params) and what in (
             'vs-quadrature', 'additivity', 'above-bracket', 'below-bracket', 'vs-closed-form-model'):
         return 'quad-length-near-linear-cancellation'
+    if sub.startswith('tiny-units') and kind in ('cubic', 'arc') and cfg is False and what in (
+            'vs-quadrature', 'additivity', 'above-bracket', 'below-bracket'):
+        # segment_length's stopping rule `length2 - length > error` is ABSOLUTE (1e-12)
+        return 'length-noscipy-tiny-units-abs-error'
     k = '%s-length-%s' % (base, what)
     if sub.startswith('collinear') or sub.startswith('near-collinear') or sub.startswith('repeated:s=e'):
         k = '%s-length-collinear-%s' % (base, what)
@@ -586,21 +612,27 @@ def run(rep, tier, seed, replay=None):
                 if not vals or t0 == t1:
                     continue
                 slack = 1e-13 * scale
-                obs_l = coq_list([bf(v) for _, v in vals])
+                # tiny-unit curves: one bracket case per configuration, so that a failure is attributable
+                groups = [[v] for v in vals] if sub == 'tiny-units' else [vals]
                 # ---------- bracket in Coq
                 if kind in ('quad', 'cubic'):
                     k = choose_k(params, t0, t1, 2e-7 if not vanish else 1e-4, kmax)
-                    bez_terms.append('(%s, %s, %s, %d, %s, %s, %s)' % (
-                        coq_list([cbf(p) for p in params]), bf(t0), bf(t1), k, bf(tol), bf(slack), obs_l))
-                    bez_meta.append((kind, params, sub, t0, t1, vals, tol, k))
+                    for g in groups:
+                        bez_terms.append('(%s, %s, %s, %d, %s, %s, %s)' % (
+                            coq_list([cbf(p) for p in params]), bf(t0), bf(t1), k, bf(tol), bf(slack),
+                            coq_list([bf(v) for _, v in g])))
+                        bez_meta.append((kind, params, sub, t0, t1, g, tol, k))
                 elif kind == 'arc':
-                    ps, w = arc_partition(seg, t0, t1, 3e-7, nmax)
+                    # nearly circular arcs are judged at 1e-6 by a tighter bracket (1024 cells: chord deficit < 4e-7)
+                    ps, w = arc_partition(seg, t0, t1, 1e-7 if sub == 'near-circular' else 3e-7,
+                                          max(nmax, 1024) if sub == 'near-circular' else nmax)
                     widths.append(w)
-                    arc_terms.append('(%s, %s, %s, %s, %s, %s, %s, %s, %s, %s, %s, %s)' % (
-                        bf(seg.radius.real), bf(seg.radius.imag), bf(seg.rot_matrix.real), bf(seg.rot_matrix.imag),
-                        cbf(seg.center), bf(float(seg.theta)), bf(float(seg.delta)), bf(t0),
-                        coq_list([bf(p) for p in ps]), bf(tol), bf(slack), obs_l))
-                    arc_meta.append((kind, params, sub, t0, t1, vals, tol, len(ps)))
+                    for g in groups:
+                        arc_terms.append('(%s, %s, %s, %s, %s, %s, %s, %s, %s, %s, %s, %s)' % (
+                            bf(seg.radius.real), bf(seg.radius.imag), bf(seg.rot_matrix.real), bf(seg.rot_matrix.imag),
+                            cbf(seg.center), bf(float(seg.theta)), bf(float(seg.delta)), bf(t0),
+                            coq_list([bf(p) for p in ps]), bf(tol), bf(slack), coq_list([bf(v) for _, v in g])))
+                        arc_meta.append((kind, params, sub, t0, t1, g, tol, len(ps)))
                 # ---------- closed-form models (line, quad)
                 if kind == 'line' or (kind == 'quad' and not vanish and not sub.startswith(('near-collinear', 'collinear'))):
                     # the binary64 closed form carries an absolute rounding error ~ eps |b|^2/|a| (cancellation of
@@ -715,7 +747,7 @@ def run(rep, tier, seed, replay=None):
                                                                      'tolerance': tol}),
                               key=fail_key(kind, sub, {1: 'below-bracket', 2: 'above-bracket', 3: 'vs-closed-form-model',
                                                        4: 'vs-chord-rule-model', 5: 'chord-rule-fuel'}.get(code, 'code%d' % code),
-                                           None, params))
+                                           vals[0][0] if (len(vals) == 1 and sub == 'tiny-units') else None, params))
 
         jobs = [('bez', OKDEF_BEZ, bez_terms, bez_meta, 12), ('arc', OKDEF_ARC, arc_terms, arc_meta, 3),
                 ('closed', okdef_closed, closed_terms, closed_meta, 60), ('seglen', OKDEF_SEGLEN, sl_terms, sl_meta, 2),
